@@ -90,6 +90,12 @@ fn lib_checks(prop: &str) -> Checks {
     c.bounds = matches!(prop, "C10" | "C12");
     match prop {
         "C02" | "C07" => c.learned = true,
+        // the incremental time-tables are only as good as their explanations: the explanation and
+        // learned-nogood oracles localise a wrong reason long before a solution is lost
+        "C08" => {
+            c.learned = true;
+            c.expl = true;
+        }
         "C17" => c.expl = true,
         "C18" => c.decision = true,
         _ => {}
@@ -250,7 +256,7 @@ fn gen_unit_raw(prop: &str, tier: Tier, rng: &mut Rng) -> Vec<Case> {
             sw.reif_rate = 0.0;
             sw.cumulative_overload = rng.chance(0.3) && std::env::var("VERIF_NO_OVERLOAD").is_err();
             sw.alias = false;
-            let (vars, mut cons) = gen_model(rng, &sw);
+            let (vars, mut cons) = if rng.chance(0.6) { gen_scheduling_model(rng, th) } else { gen_model(rng, &sw) };
             if rng.chance(0.3) {
                 // an additional simple constraint makes bound changes come from elsewhere too
                 let sw2 = Swarm { kinds: vec![Kind::LinLe, Kind::BinNe, Kind::PredClause], reif_rate: 0.0, ..sw.clone() };
@@ -367,6 +373,68 @@ fn gen_unit_raw(prop: &str, tier: Tier, rng: &mut Rng) -> Vec<Case> {
     }
 }
 
+/// A scheduling-shaped model for C08: several tasks over a horizon of up to ten time points
+/// (some already fixed, some with sparse or negative start domains), durations up to four,
+/// usages up to three, small capacities, plus coupling side constraints (precedences, start =
+/// start + k, clauses over start times) so that one decision moves several mandatory parts.
+pub fn gen_scheduling_model(rng: &mut Rng, th: bool) -> (Vec<VarDecl>, Vec<Con>) {
+    let n = rng.range(2, if th { 6 } else { 5 }) as usize;
+    let horizon = rng.range32(3, 10);
+    let shift = if rng.chance(0.25) { -rng.range32(1, 4) } else { 0 };
+    // iterate-to-the-end costs one solve per solution (each on a longer clause database), so the
+    // assignment space stays small
+    let max_space: u128 = if th { 6_000 } else { 2_500 };
+    let mut vars: Vec<VarDecl> = vec![];
+    let mut space: u128 = 1;
+    for _ in 0..n {
+        let mut d = match rng.below(10) {
+            0 | 1 => {
+                let v = shift + rng.range32(0, horizon);
+                VarDecl::interval(v, v)
+            }
+            2 | 3 => {
+                let k = rng.range(2, 4) as usize;
+                VarDecl::sparse((0..k).map(|_| shift + rng.range32(0, horizon)).collect())
+            }
+            _ => {
+                let lb = shift + rng.range32(0, horizon / 2);
+                VarDecl::interval(lb, (lb + rng.range32(1, horizon)).min(shift + horizon))
+            }
+        };
+        if space * d.values.len() as u128 > max_space {
+            let v = d.values[0];
+            d = VarDecl::interval(v, v);
+        }
+        space *= d.values.len() as u128;
+        vars.push(d);
+    }
+    let capacity = rng.range32(1, 3);
+    let starts: Vec<View> = (0..n).map(|i| if rng.chance(0.9) { View::plain(i) } else { View { var: i, scale: 1, off: rng.range32(-2, 2) } }).collect();
+    let durations: Vec<i32> = (0..n).map(|_| if rng.chance(0.08) { 0 } else { rng.range32(1, 4) }).collect();
+    let usages: Vec<i32> = (0..n).map(|_| if rng.chance(0.05) { 0 } else { rng.range32(1, capacity.min(3)) }).collect();
+    let mut cons = vec![Con::Cumulative { starts, durations, usages, capacity, options: 0 }];
+    for _ in 0..rng.range(0, 3) {
+        let a = rng.below(n);
+        let b = rng.below(n);
+        if a == b {
+            continue;
+        }
+        let c = match rng.below(4) {
+            // b = a + k
+            0 => Con::LinEq(vec![View::plain(a), View { var: b, scale: -1, off: 0 }], -rng.range32(0, 5)),
+            // a + d <= b (precedence)
+            1 => Con::BinLe(View { var: a, scale: 1, off: rng.range32(1, 3) }, View::plain(b)),
+            2 => Con::PredClause(vec![
+                Pred { var: a, k: Pk::Eq, val: *rng.pick(&vars[a].values) },
+                Pred { var: b, k: *rng.pick(&[Pk::Eq, Pk::Ge, Pk::Le]), val: *rng.pick(&vars[b].values) },
+            ]),
+            _ => Con::BinNe(View::plain(a), View::plain(b)),
+        };
+        cons.push(c);
+    }
+    (vars, cons)
+}
+
 /// K2: an operation history on one solver.
 pub fn gen_history(prop: &str, tier: Tier, rng: &mut Rng, checks: Checks) -> Case {
     let th = thorough(tier);
@@ -435,6 +503,10 @@ pub fn run_unit(prop: &str, tier: Tier, seed: u64, want_sample: bool) -> UnitRes
     let mut res = UnitResult::default();
     match prop {
         "C11" => run_unit_c11(tier, &mut rng, want_sample, &mut res),
+        "C06" => {
+            let c = crate::proofcase::generate(prop, &mut rng, thorough(tier));
+            absorb_any(&mut res, crate::anycase::AnyCase::Proof(c), want_sample);
+        }
         "C19" => {
             let c = crate::streams::DrcpCase::generate(prop, &mut rng);
             absorb_any(&mut res, crate::anycase::AnyCase::Drcp(c), want_sample);
